@@ -5,8 +5,8 @@
  * admitted by CK_PRE are
  *     gzip: (L,0) for L=0..64 and (L,T) for L=0..7, T=1..7   (121 pairs)
  *     zlib: (L,0) for L=0..64 and (L,T) for L=0..7, T=1..3   ( 89 pairs)
- * h_check_*_checksum_all (compiled with -DINF_CK_PLAIN, not instrumented by dfcc) calls the function once
- * on each pair given as literal constants and asserts the contract's postcondition macros and an explicit
+ * h_check_*_checksum_all<k> (compiled with -DINF_CK_PLAIN, not instrumented by dfcc; the k parts together
+ * enumerate every pair) call the function once on each pair given as literal constants and asserts the contract's postcondition macros and an explicit
  * frame afterwards; h_check_*_checksum_c<k> enforce the dfcc contract (assigns clause) on one pair each.
  * The case lists are generated text. */
 #include <stdlib.h>
@@ -99,20 +99,26 @@ memcpy(void *dst, const void *src, size_t n)
                         o_e6 == state->tmp_in_buffer[16 + g_f6 % (ISAL_DEF_MAX_HDR_SIZE - 16)],    \
                 "frame: lookup tables, tmp_out_buffer and tmp_in_buffer[16..) unchanged (ghost index)");
 
+/* the logical trailer at entry, evaluated once per path (after the literals are stored) */
+static void
+ck_ghosts(const struct inflate_state *state, int len)
+{
+        g_tr = (len == 8) ? CK_TR8(state) : CK_TR4(state);
+        g_ta = CK_A(state);
+        g_tb = CK_B(state);
+        g_tt = CK_T(state);
+}
+
 #define CK_CASE(Lc, Tc)                                                                            \
         case (Lc) * 8 + (Tc):                                                                      \
                 state->read_in_length = (Lc);                                                      \
                 state->tmp_in_size = (Tc);                                                         \
-                g_tr = CK_TRW(state);                                                              \
-                g_ta = CK_A(state);                                                                \
-                g_tb = CK_B(state);                                                                \
-                g_tt = CK_T(state);                                                                \
-                CK_SNAP                                                                            \
+                ck_ghosts(state, CK_TRW);                                                          \
                 r = CK_FN(state);                                                                  \
                 break;
 
 void
-h_check_gzip_checksum_all(void)
+h_check_gzip_checksum_all0(void)
 {
         struct inflate_state *state = malloc(sizeof(*state));
         unsigned sel;
@@ -122,8 +128,9 @@ h_check_gzip_checksum_all(void)
         HARNESS_ASSUME(state->avail_in <= 0xfffffff7u);
         state->next_in = malloc(state->avail_in);
         HARNESS_ASSUME(state->next_in != NULL);
+        CK_SNAP
 #define CK_FN check_gzip_checksum
-#define CK_TRW CK_TR8
+#define CK_TRW 8
         switch (sel) {
         CK_CASE(0, 0)
         CK_CASE(1, 0)
@@ -166,6 +173,34 @@ h_check_gzip_checksum_all(void)
         CK_CASE(38, 0)
         CK_CASE(39, 0)
         CK_CASE(40, 0)
+        default:
+                return;
+        }
+#undef CK_FN
+#undef CK_TRW
+        __CPROVER_assert(CK_POST_RET(r), "check_gzip_checksum: documented return codes only");
+        __CPROVER_assert(CK_POST_SHORT(8, r, o_next_in, o_avail_in), "check_gzip_checksum: short trailer preserved, END_INPUT");
+        __CPROVER_assert(CK_POST_FULL(8, r, o_next_in, o_avail_in), "check_gzip_checksum: trailer consumed exactly, FINISH");
+        __CPROVER_assert(CK_POST_GZ(r), "check_gzip_checksum: OK iff trailer matches checksum (and length)");
+        CK_FRAME_ASSERTS
+        VCANARY();
+}
+
+void
+h_check_gzip_checksum_all1(void)
+{
+        struct inflate_state *state = malloc(sizeof(*state));
+        unsigned sel;
+        int r;
+        CK_SNAP_DECL
+        HARNESS_ASSUME(state != NULL);
+        HARNESS_ASSUME(state->avail_in <= 0xfffffff7u);
+        state->next_in = malloc(state->avail_in);
+        HARNESS_ASSUME(state->next_in != NULL);
+        CK_SNAP
+#define CK_FN check_gzip_checksum
+#define CK_TRW 8
+        switch (sel) {
         CK_CASE(41, 0)
         CK_CASE(42, 0)
         CK_CASE(43, 0)
@@ -207,6 +242,34 @@ h_check_gzip_checksum_all(void)
         CK_CASE(6, 2)
         CK_CASE(7, 2)
         CK_CASE(0, 3)
+        default:
+                return;
+        }
+#undef CK_FN
+#undef CK_TRW
+        __CPROVER_assert(CK_POST_RET(r), "check_gzip_checksum: documented return codes only");
+        __CPROVER_assert(CK_POST_SHORT(8, r, o_next_in, o_avail_in), "check_gzip_checksum: short trailer preserved, END_INPUT");
+        __CPROVER_assert(CK_POST_FULL(8, r, o_next_in, o_avail_in), "check_gzip_checksum: trailer consumed exactly, FINISH");
+        __CPROVER_assert(CK_POST_GZ(r), "check_gzip_checksum: OK iff trailer matches checksum (and length)");
+        CK_FRAME_ASSERTS
+        VCANARY();
+}
+
+void
+h_check_gzip_checksum_all2(void)
+{
+        struct inflate_state *state = malloc(sizeof(*state));
+        unsigned sel;
+        int r;
+        CK_SNAP_DECL
+        HARNESS_ASSUME(state != NULL);
+        HARNESS_ASSUME(state->avail_in <= 0xfffffff7u);
+        state->next_in = malloc(state->avail_in);
+        HARNESS_ASSUME(state->next_in != NULL);
+        CK_SNAP
+#define CK_FN check_gzip_checksum
+#define CK_TRW 8
+        switch (sel) {
         CK_CASE(1, 3)
         CK_CASE(2, 3)
         CK_CASE(3, 3)
@@ -260,7 +323,7 @@ h_check_gzip_checksum_all(void)
 }
 
 void
-h_check_zlib_checksum_all(void)
+h_check_zlib_checksum_all0(void)
 {
         struct inflate_state *state = malloc(sizeof(*state));
         unsigned sel;
@@ -270,8 +333,9 @@ h_check_zlib_checksum_all(void)
         HARNESS_ASSUME(state->avail_in <= 0xfffffff7u);
         state->next_in = malloc(state->avail_in);
         HARNESS_ASSUME(state->next_in != NULL);
+        CK_SNAP
 #define CK_FN check_zlib_checksum
-#define CK_TRW CK_TR4
+#define CK_TRW 4
         switch (sel) {
         CK_CASE(0, 0)
         CK_CASE(1, 0)
@@ -318,6 +382,34 @@ h_check_zlib_checksum_all(void)
         CK_CASE(42, 0)
         CK_CASE(43, 0)
         CK_CASE(44, 0)
+        default:
+                return;
+        }
+#undef CK_FN
+#undef CK_TRW
+        __CPROVER_assert(CK_POST_RET(r), "check_zlib_checksum: documented return codes only");
+        __CPROVER_assert(CK_POST_SHORT(4, r, o_next_in, o_avail_in), "check_zlib_checksum: short trailer preserved, END_INPUT");
+        __CPROVER_assert(CK_POST_FULL(4, r, o_next_in, o_avail_in), "check_zlib_checksum: trailer consumed exactly, FINISH");
+        __CPROVER_assert(CK_POST_ZL(r), "check_zlib_checksum: OK iff trailer matches checksum (and length)");
+        CK_FRAME_ASSERTS
+        VCANARY();
+}
+
+void
+h_check_zlib_checksum_all1(void)
+{
+        struct inflate_state *state = malloc(sizeof(*state));
+        unsigned sel;
+        int r;
+        CK_SNAP_DECL
+        HARNESS_ASSUME(state != NULL);
+        HARNESS_ASSUME(state->avail_in <= 0xfffffff7u);
+        state->next_in = malloc(state->avail_in);
+        HARNESS_ASSUME(state->next_in != NULL);
+        CK_SNAP
+#define CK_FN check_zlib_checksum
+#define CK_TRW 4
+        switch (sel) {
         CK_CASE(45, 0)
         CK_CASE(46, 0)
         CK_CASE(47, 0)
